@@ -199,6 +199,98 @@ func vfC07bJCase(searcher zoekt.Searcher, path, method string, body []byte, stat
 	vfEmit(map[string]any{"kind": "jcase", "coq": coq, "sample": map[string]any{"path": path, "method": method, "body": string(body[:min(len(body), 200)]), "status": status}})
 }
 
+// ---------------------------------------------------------------- cost-level evaluation (coq/Model/MatchCostEval.v)
+
+// the nodes a matches method evaluates through evalMatchTree / delegates to (not: the subtrees a node only uses for
+// prepare / nextDoc, like symbolRegexpMatchTree's candidate tree)
+func vfC07bChildren(mt matchTree) []matchTree {
+	switch s := mt.(type) {
+	case *andMatchTree:
+		return s.children
+	case *andLineMatchTree:
+		return s.children
+	case *orMatchTree:
+		return s.children
+	case *notMatchTree:
+		return []matchTree{s.child}
+	case *fileNameMatchTree:
+		return []matchTree{s.child}
+	case *boostMatchTree:
+		return []matchTree{s.child}
+	case *noVisitMatchTree:
+		return []matchTree{s.matchTree}
+	}
+	return nil
+}
+
+var vfC07bStateCoq = map[matchesState]string{matchesFound: "SFound", matchesNone: "SNone", matchesRequiresHigherCost: "SHigher"}
+
+// every node's state at this cost level (children first; the root was already evaluated by the loop, so what is
+// recorded for it is what the loop saw - evalMatchTree answers decided nodes from `known`)
+func vfC07bObs(cp *contentProvider, cost int, known map[matchTree]bool, mt matchTree, nodes *int) string {
+	var cs []string
+	for _, c := range vfC07bChildren(mt) {
+		cs = append(cs, vfC07bObs(cp, cost, known, c, nodes))
+	}
+	*nodes++
+	st := evalMatchTree(cp, cost, known, mt)
+	kind := strings.TrimPrefix(fmt.Sprintf("%T", mt), "*index.")
+	kids := "(@nil obs)"
+	if len(cs) > 0 {
+		kids = "[" + strings.Join(cs, "; ") + "]"
+	}
+	return fmt.Sprintf("(ONode MT_%s %s %s)", kind, vfC07bStateCoq[st], kids)
+}
+
+// the document loop of indexData.Search for one query, traced: for every document and every cost level the loop
+// visits, the state of every node of the match tree
+func vfC07bCostTrace(d *indexData, q query.Q, s string, cls string) {
+	q = d.simplify(q)
+	if c, ok := q.(*query.Const); ok && !c.Value {
+		return
+	}
+	q = query.Map(q, query.ExpandFileContent)
+	mt, err := d.newMatchTree(q, matchTreeOpt{})
+	if err != nil {
+		return
+	}
+	mt, err = pruneMatchTree(mt)
+	if err != nil || mt == nil {
+		return
+	}
+	var stats zoekt.Stats
+	cp := &contentProvider{id: d, stats: &stats}
+	docCount := uint32(len(d.fileBranchMasks))
+	for doc := uint32(0); doc < docCount; doc++ {
+		mt.prepare(doc)
+		cp.setDocument(doc)
+		known := make(map[matchTree]bool)
+		var levels []string
+		matched, undecided := true, false
+		nodes := 0
+		for cost := costMin; cost <= costMax; cost++ {
+			st := evalMatchTree(cp, cost, known, mt)
+			nodes = 0
+			levels = append(levels, fmt.Sprintf("(%d, %s)", cost, vfC07bObs(cp, cost, known, mt, &nodes)))
+			if st == matchesRequiresHigherCost && cost == costMax {
+				undecided = true
+			}
+			if st == matchesNone {
+				matched = false
+				break
+			}
+		}
+		if undecided {
+			vfOracleFail("Search:did-not-decide", "the match tree is still undecided at costMax (indexData.Search would log.Panicf)",
+				map[string]any{"query": s, "doc": doc, "tree": fmt.Sprint(mt)})
+		}
+		coq := cTuple("["+strings.Join(levels, "; ")+"]%N", cBool(matched))
+		vfEmit(map[string]any{"kind": "mccase", "coq": coq, "key": fmt.Sprintf("%s#%d", s, doc), "nontrivial": nodes >= 2,
+			"class":  []string{cls, fmt.Sprintf("nodes=%d", min(nodes, 6)), fmt.Sprintf("levels=%d", len(levels)), fmt.Sprintf("matched=%v", matched)},
+			"sample": map[string]any{"query": s, "doc": doc, "tree": fmt.Sprint(mt)}})
+	}
+}
+
 func TestVerifC07b(t *testing.T) {
 	r := vfNewRand(vfSeed() + 77)
 	n := vfN(400)
@@ -298,6 +390,11 @@ func TestVerifC07b(t *testing.T) {
 				outcome["search"] = "error"
 			} else {
 				outcome["search"] = fmt.Sprintf("ok files=%d", min(len(sres.Files), 3))
+			}
+			if id, ok := searcher.(*indexData); ok && serr == nil && outcome["search"] != "panic" {
+				if p := vfC07bStage(func() { vfC07bCostTrace(id, q, s, classes[idx]) }); p != "" {
+					vfOracleFail("CostTrace:"+p, "evaluating the match tree level by level panics: "+p, replay)
+				}
 			}
 			if p := vfC07bStage(func() { _, lerr = searcher.List(ctx, q, nil) }); p != "" {
 				outcome["list"] = "panic"
